@@ -1130,6 +1130,8 @@ func (env *SpecEnv) callExpr(e *SExpr) SVal {
 			vc.needBytes, vc.needBeval, rs = true, true, sortInt
 		case "beenc":
 			vc.needBytes, rs = true, &Sort{K: SOpaque, Name: "Bytes"}
+		case "tohash32":
+			vc.needBytes, vc.needToHash, rs = true, true, &Sort{K: SOpaque, Name: "Bytes"}
 		case "select":
 			if len(as) == 2 && as[0].T != nil && as[0].T.K == SArray {
 				return SVal{T: tSelect(as[0], as[1])}
